@@ -226,10 +226,8 @@ def run(repo: Repo, rep: Report, tier: str) -> None:
             rep.check(nonblocking, "queue-guard", f"fsm.{fn.name}", f"{norm(c)} is non-blocking", "a blocking get() in an action would hang the provider thread", mod=fsm, node=c)
     rep.floor("queue gets in actions", n_gets, 20)
     # the producers: an event for a decoded PDU is queued together with the PDU; a primitive event only when a primitive is at the head of the queue
-    rd = repo.func("dul", "DULServiceProvider._read_pdu_data")
-    src = [norm(s) for s in walk_no_nested(rd) if isinstance(s, ast.stmt)]
-    ok = "self.event_queue.put(event)" in src and "self._recv_pdu.put(pdu)" in src and ("(pdu, event) = self._decode_pdu(bytestream)" in src or "pdu, event = self._decode_pdu(bytestream)" in src)
-    rep.check(ok, "queue-guard", "dul.DULServiceProvider._read_pdu_data", "event and PDU queued together", "every PDU event must come with its PDU on _recv_pdu", mod=dul, node=rd)
+    from ..delegate import delegate as _delegate
+    _delegate(repo, rep, tier, "C03", ("one-per-call",), "queue-guard", "an action's get(False) on _recv_pdu finds nothing (queue.Empty kills the provider thread) or a PDU left over from an earlier, event-less read")
     prp = repo.func("dul", "DULServiceProvider._process_recv_primitive")
     srcp = [norm(s) for s in walk_no_nested(prp) if isinstance(s, ast.stmt)]
     rep.check("primitive = self.to_provider_queue.queue[0]" in srcp and "self.event_queue.put(event)" in srcp, "queue-guard", "dul.DULServiceProvider._process_recv_primitive", "primitive event only for the primitive at the head of the queue (peek, no dequeue)", "the action dequeues the primitive itself", mod=dul, node=prp)
